@@ -138,7 +138,22 @@ def ops(rng, names_for, span):
     j = rng.randrange(i, len(span))
     val = round(rng.uniform(-5, 5), 3)
     seq = [round(rng.uniform(0, 9), 2) for _ in span]
-    kind = rng.choice(['attr-seq', 'attr-scalar', 'attr-pos', 'item-seq', 'item-pos', 'label', 'slice', 'replace', 'read', 'solve', 'values', 'introspect', 'copy-roundtrip'])
+    kind = rng.choice(['attr-seq', 'attr-scalar', 'attr-pos', 'item-seq', 'item-pos', 'label', 'slice', 'replace', 'read', 'solve', 'values', 'introspect', 'copy-roundtrip',
+                       'attr-seq-misshapen', 'item-seq-misshapen', 'attr-seq-held'])
+    if kind in ('attr-seq-misshapen', 'item-seq-misshapen'):
+        # a sequence that does not fit (too short, too long, one element, nested): refused the same way through either spelling
+        bad = rng.choice([[7.0], list(seq) + [1.0], list(seq)[:-1], [list(seq)], [], (1.0, 2.0), range(len(span) + 2)])
+        if kind == 'attr-seq-misshapen':
+            return (kind, v, repr(bad)), lambda m, nm: setattr(m, nm(v), bad)
+        return (kind, v, repr(bad)), lambda m, nm: m.__setitem__(nm(v), bad)
+    if kind == 'attr-seq-held':
+        # what a whole-series write does to an array handed out earlier is the same through either spelling
+        def f(m, nm):
+            held = getattr(m, v)
+            image = [float(x) for x in held]
+            setattr(m, nm(v), list(seq))
+            return ([float(x) for x in held] == image, held is getattr(m, v))
+        return (kind, v), f
     if kind == 'introspect':
         # name listing for completion / dir(): results legitimately differ (aliases are listed), the state must not
         return (kind,), lambda m, nm: (m._ipython_key_completions_(), dir(m), nm(v) in m, len(m._ipython_key_completions_()) >= 0)[3]
